@@ -1,16 +1,468 @@
+import PhreeqcVerif.Lemmas.BasicParse
 import PhreeqcVerif.Model.BasicExec
-/-! C17 — BASIC programs compute standard arithmetic, string and control-flow semantics: theorems about the
-reference evaluator `Model/Basic*.lean` (for all programs / expressions) and facts over the generated token tables. -/
+import Mathlib.Tactic.Linarith
+import Mathlib.Tactic.Ring
+import Mathlib.Algebra.Order.Field.Rat
+/-! C17 — BASIC programs compute standard arithmetic, string and control-flow semantics.
+
+Theorems about the reference evaluator `Model/Basic*.lean` (the executable model of `PBasic.cpp` that
+`pmodel basic` runs against the real engine), for ALL expressions / programs / states, and facts over the token
+tables regenerated from the source on every run (`Gen/BasicTokens.lean`). -/
 namespace PhreeqcVerif.C17
 open PhreeqcVerif.Basic PhreeqcVerif.Gen
+
+/-! ## generated token tables -/
 
 /-- the documented keywords denote the documented tokens in the table extracted from `PBasic.cpp` -/
 theorem keywords_documented :
     (["and", "or", "xor", "not", "mod", "if", "then", "else", "for", "to", "step", "next", "while", "wend", "goto",
-      "gosub", "return", "on", "data", "read", "restore", "dim", "put", "get", "punch", "save", "print", "end", "rem"].map lookupKw)
+      "gosub", "return", "on", "data", "read", "restore", "dim", "put", "get", "punch", "save", "print", "end", "rem",
+      "let", "stop", "erase", "put$", "get$"].map lookupKw)
     = (["tokand", "tokor", "tokxor", "toknot", "tokmod", "tokif", "tokthen", "tokelse", "tokfor", "tokto", "tokstep",
         "toknext", "tokwhile", "tokwend", "tokgoto", "tokgosub", "tokreturn", "tokon", "tokdata", "tokread", "tokrestore",
-        "tokdim", "tokput", "tokget", "tokpunch", "toksave", "tokprint", "tokend", "tokrem"].map some) := by
+        "tokdim", "tokput", "tokget", "tokpunch", "toksave", "tokprint", "tokend", "tokrem",
+        "toklet", "tokstop", "tokerase", "tokput_", "tokget_"].map some) := by
   decide
+
+/-- documented numeric and string functions -/
+theorem functions_documented :
+    (["abs", "sqr", "sqrt", "exp", "log", "log10", "sin", "cos", "tan", "arctan", "sgn", "floor", "ceil",
+      "chr$", "str$", "mid$", "len", "asc", "val", "instr", "ltrim", "rtrim", "trim", "pad", "pad$", "eol$"].map lookupKw)
+    = (["tokabs", "toksqr", "toksqrt", "tokexp", "toklog", "toklog10", "toksin", "tokcos", "toktan", "tokarctan", "toksgn",
+        "tokfloor", "tokceil", "tokchr_", "tokstr_", "tokmid_", "toklen", "tokasc", "tokval", "tokinstr", "tokltrim",
+        "tokrtrim", "toktrim", "tokpad", "tokpad_", "tokeol_"].map some) := by
+  decide
+
+def enumIndex (t : String) : Option Nat :=
+  let i := BasicTokens.tokEnum.findIdx (· == t)
+  if i < BasicTokens.tokEnum.length then some i else none
+
+/-- `relexpr` tests `(1L << (tokne + 1)) - (1L << tokeq)`: the enumerators from `tokeq` to `tokne` are exactly the
+six relational operators (and all below 32, so the `long` mask can hold them) -/
+theorem rel_mask_is_the_six_relations :
+    BasicTokens.relRange = ("tokeq", "tokne") ∧
+    (BasicTokens.tokEnum.drop 14).take 6 = ["tokeq", "toklt", "tokgt", "tokle", "tokge", "tokne"] ∧
+    enumIndex "tokeq" = some 14 ∧ enumIndex "tokne" = some 19 := by
+  decide
+
+/-- the operator masks of `term`, `sexpr`, `expr` name exactly the operators of their level, every masked
+enumerator is below 32 (the code tests `kind < 32` before shifting), and AND/OR/XOR/MOD/NOT precede 32 too -/
+theorem loop_masks :
+    BasicTokens.mask_term = ["toktimes", "tokdiv", "tokmod"] ∧
+    BasicTokens.mask_sexpr = ["tokplus", "tokminus"] ∧
+    BasicTokens.mask_expr = ["tokor", "tokxor"] ∧
+    (["toktimes", "tokdiv", "tokmod", "tokplus", "tokminus", "tokor", "tokxor", "tokand", "toksemi", "tokcomma"].all
+      fun t => match enumIndex t with
+        | some i => i < 32
+        | none => false) = true := by
+  decide
+
+/-! ## expressions: precedence and associativity -/
+
+/-- **Round trip.** For every well-formed derivation `d` of the documented expression grammar
+(`Model/BasicGrammar.lean`: seven levels, all fifteen binary operators, prefix operators and functions, the
+parenthesised-argument string functions; redundant parentheses allowed) the parser of the model — `expr` down to
+`factor`, the code's seven functions — returns exactly the tree `d` denotes (`Deriv.den`: a chain at one level is
+the *left* fold of its operators, `^` nests to the *right*, prefix operators bind tighter than any binary
+operator), consuming exactly the tokens of `d`, whenever what follows cannot continue an expression.
+
+`_partial`: subscripted variables and `GET(…)` (argument lists) are not part of `Deriv`; `∃ N` is the nesting
+budget (fuel) of the parser, the drivers run it with `parseFuel`. -/
+theorem parse_print_roundtrip_partial {α : Type} (d : Deriv α) (hw : d.WF) (rest : List (Tok α))
+    (hf : FollowOk 0 rest) :
+    ∃ N, ∀ n, n ≥ N → pExpr n (d.flat ++ rest) = .ok (d.den, rest) := by
+  obtain ⟨N, h⟩ := roundtrip_deriv d hw rest 0 (Nat.zero_le _) hf
+  exact ⟨N + 1, pExpr_of_pLvl0 h⟩
+
+/-- the same at every grammar level (e.g. level 5: what `upexpr` returns) -/
+theorem parse_level_roundtrip_partial {α : Type} (d : Deriv α) (hw : d.WF) (rest : List (Tok α)) (l : Nat)
+    (hl : l ≤ d.level) (hf : FollowOk l rest) :
+    ∃ N, ∀ n, n ≥ N → pLvl n l (d.flat ++ rest) = .ok (d.den, rest) :=
+  roundtrip_deriv d hw rest l hl hf
+
+/-- non-vacuity: `- 2 ^ 2 ^ 3 * 4 - 5 - 6 < 7 AND 1 OR 0`: unary minus inside `^`, `^` to the right,
+`-` to the left, relation above AND above OR — parsed with the fuel the drivers use -/
+example :
+    parseExpr (α := Nat)
+      [.k .minus, .num 2, .k .up, .num 2, .k .up, .num 3, .k .times, .num 4, .k .minus, .num 5, .k .minus, .num 6,
+       .k .lt, .num 7, .k .and_, .num 1, .k .or_, .num 0]
+    = .ok (.bin .or_
+            (.bin .and_
+              (.bin .lt
+                (.bin .minus
+                  (.bin .minus
+                    (.bin .times (.bin .up (.un .neg (.num 2)) (.bin .up (.num 2) (.num 3))) (.num 4))
+                    (.num 5))
+                  (.num 6))
+                (.num 7))
+              (.num 1))
+            (.num 0), []) := by
+  rfl
+
+/-- the same string as a derivation: it is well formed and denotes that tree -/
+example :
+    let d : Deriv Nat :=
+      .chain 0 (.chain 1 (.chain 2 (.chain 3 (.chain 4 (.up (.un .neg (.num 2)) (.up (.num 2) (.num 3)))
+        (.cons .times (.num 4) .nil)) (.cons .minus (.num 5) (.cons .minus (.num 6) .nil)))
+        (.cons .lt (.num 7) .nil)) (.cons .and_ (.num 1) .nil)) (.cons .or_ (.num 0) .nil)
+    d.WF ∧ d.flat.length = 18 := by
+  simp [Deriv.WF, DTail.WF, Deriv.level, binLevel, Deriv.flat, DTail.flat]
+
+/-- **Compositionality.** The value of a binary expression is `applyBin` of the values of its operands, evaluated
+left to right with the state threaded through (no short circuit, no dependence on context) -/
+theorem eval_compositional {α : Type} [BNum α] (hook : Hook α) (op : BinOp) (a b : Expr α) (s : St α) :
+    eval hook (.bin op a b) s =
+      (match eval hook a s with
+       | .error e => .error e
+       | .ok (va, s1) =>
+         match eval hook b s1 with
+         | .error e => .error e
+         | .ok (vb, s2) => applyBin op va vb s2) := by
+  rw [eval]
+
+theorem eval_compositional_un {α : Type} [BNum α] (hook : Hook α) (f : UnFn) (a : Expr α) (s : St α) :
+    eval hook (.un f a) s =
+      (match eval hook a s with
+       | .error e => .error e
+       | .ok (v, s1) => applyUn hook f v s1) := by
+  rw [eval]
+
+/-! ## execution: values or a typed error, never stuck -/
+
+/-- a run that ends (values or error) within `n` steps ends the same way with any larger budget -/
+theorem run_fuel_mono {α : Type} [BNum α] (hook : Hook α) :
+    ∀ (n : Nat) (c : Cfg α), (∀ s, runLoop hook n c ≠ .fuel s) → ∀ k, runLoop hook (n + k) c = runLoop hook n c := by
+  intro n
+  induction n with
+  | zero => intro c h; exact absurd rfl (h c.st)
+  | succ n ih =>
+    intro c h k
+    have e : n + 1 + k = (n + k) + 1 := by omega
+    rw [e]
+    simp only [runLoop] at h ⊢
+    cases hs : step hook c with
+    | cont c' =>
+      simp only [hs] at h ⊢
+      exact ih c' h k
+    | done s => rfl
+    | err e s => rfl
+
+/-- **Totality.** For every program text, host precision flag and budget the reference evaluation *is* one of:
+finished with the state holding the PUNCH/PRINT/SAVE values, a typed BASIC error, or budget exhausted; and the
+answer does not depend on the budget once the run ends (no other way to be stuck exists) -/
+theorem exec_total {α : Type} [BNum α] (hook : Hook α) (c : Cfg α) (n m : Nat)
+    (hn : ∀ s, runLoop hook n c ≠ .fuel s) (hm : ∀ s, runLoop hook m c ≠ .fuel s) :
+    runLoop hook n c = runLoop hook m c ∧
+    ((∃ s, runLoop hook n c = .done s) ∨ (∃ e s, runLoop hook n c = .err e s)) := by
+  constructor
+  · rcases Nat.le_total n m with h | h
+    · obtain ⟨k, rfl⟩ := Nat.exists_eq_add_of_le h
+      exact (run_fuel_mono hook n c hn k).symm
+    · obtain ⟨k, rfl⟩ := Nat.exists_eq_add_of_le h
+      exact run_fuel_mono hook m c hm k
+  · cases h : runLoop hook n c with
+    | done s => exact Or.inl ⟨s, rfl⟩
+    | err e s => exact Or.inr ⟨e, s, rfl⟩
+    | fuel s => exact absurd h (hn s)
+
+/-! ## hosts -/
+
+/-- **Hosts agree.** Every host observes a projection of one and the same run: RATES and CALCULATE_VALUES deliver
+the same; a BASIC error of the run is an error under every host; when USER_PUNCH delivers its cells USER_PRINT
+delivers its text, and RATES delivers the last SAVE value exactly when there is one (and it is a number) -/
+theorem hosts_agree {α : Type} [BNum α] (o : Outcome α) :
+    hostOut .rates o = hostOut .calculateValues o ∧
+    (∀ e s, o = .err e s → ∀ h, hostOut h o = .basicError) ∧
+    (∀ cells, hostOut .userPunch o = .punched cells →
+      ∃ s, o = .done s ∧ cells = s.punch.toList ∧
+        (∃ text, hostOut .userPrint o = .printed text) ∧
+        (∀ x, hostOut .rates o = .saved x ↔ (s.save = some x ∧ BNum.isNaN x = false))) := by
+  refine ⟨?_, ?_, ?_⟩
+  · cases o <;> rfl
+  · intro e s h hst; subst h; cases hst <;> rfl
+  · intro cells h
+    cases o with
+    | fuel s => simp [hostOut] at h
+    | err e s => simp [hostOut] at h
+    | done s =>
+      simp only [hostOut, HostOut.punched.injEq] at h
+      refine ⟨s, rfl, h.symm, ⟨_, rfl⟩, ?_⟩
+      intro x
+      simp only [hostOut]
+      cases hsv : s.save with
+      | none => simp
+      | some y =>
+        by_cases hy : BNum.isNaN y = true
+        · simp [hy]
+          intro hxy; subst hxy; simp [hy]
+        · simp [hy]
+          constructor
+          · intro hxy; subst hxy; simpa using hy
+          · intro hxy; exact hxy.1
+
+/-! ## GOSUB / RETURN -/
+
+theorem popTo_gosub {α : Type} (inner outer : List (Loop α)) (g : Loop α) (hg : g.kind = .gosub)
+    (hin : ∀ l ∈ inner, l.kind ≠ .gosub) :
+    popTo (fun l => l.kind == .gosub) (fun _ => false) (inner ++ g :: outer) = some (g, outer) := by
+  induction inner with
+  | nil => simp [popTo, hg]
+  | cons l ls ih =>
+    have hl : l.kind ≠ .gosub := hin l (List.mem_cons_self ..)
+    have : (l.kind == LoopKind.gosub) = false := by simpa using hl
+    simp only [List.cons_append, popTo, this]
+    exact ih (fun x hx => hin x (List.mem_cons_of_mem _ hx))
+
+/-- **GOSUB/RETURN stack, any nesting depth.** GOSUB records the place behind itself on top of the stack and jumps;
+RETURN — whatever FOR/WHILE frames the subroutine left open (`inner`, any number) and however many callers are
+waiting below (`outer`, any depth) — resumes right behind the *innermost pending* GOSUB (its line, the tokens after
+its line number up to the end of that statement), discards exactly the frames above it and leaves the callers'
+frames untouched -/
+theorem gosub_return_stack {α : Type} [BNum α] (hook : Hook α) (s : St α) (line : Option Nat)
+    (t : List (Tok α)) (inner outer : List (Loop α)) (g : Loop α) (hg : g.kind = .gosub)
+    (hin : ∀ l ∈ inner, l.kind ≠ .gosub) (hs : s.loops = inner ++ g :: outer) :
+    execStmt hook s line (.k .return_) t
+      = .ok { st := { s with loops := outer }, line := g.homeline, t := skipToEos g.hometok } ∧
+    (∀ (s' : St α) (line' : Option Nat) (t' : List (Tok α)),
+      execStmt hook s' line' (.k .gosub) t'
+        = cmdGoto hook { s' with loops := { kind := .gosub, homeline := line', hometok := t',
+                                            max := BNum.zero, step := BNum.zero } :: s'.loops } t') := by
+  constructor
+  · simp only [execStmt, hs, popTo_gosub inner outer g hg hin]
+  · intro s' line' t'; rfl
+
+/-- RETURN with no pending GOSUB is the BASIC error "RETURN without GOSUB" (never a jump) -/
+theorem return_without_gosub {α : Type} [BNum α] (hook : Hook α) (s : St α) (line : Option Nat)
+    (t : List (Tok α)) (h : ∀ l ∈ s.loops, l.kind ≠ .gosub) :
+    execStmt hook s line (.k .return_) t = .error .returnWoGosub := by
+  have : popTo (fun l : Loop α => l.kind == .gosub) (fun _ => false) s.loops = none := by
+    generalize s.loops = ls at h
+    induction ls with
+    | nil => rfl
+    | cons l ls ih =>
+      have hl : (l.kind == LoopKind.gosub) = false := by simpa using h l (List.mem_cons_self ..)
+      simp only [popTo, hl]
+      exact ih (fun x hx => h x (List.mem_cons_of_mem _ hx))
+  simp only [execStmt, this]
+
+/-! ## DATA / READ -/
+
+/-- the forward scan stops at the *first* token (in program order) where the predicate holds -/
+theorem scanToks_first {α σ : Type} (f : σ → Tok α → List (Tok α) → σ × Bool) :
+    ∀ (ts : List (Tok α)) (st : σ) (r : List (Tok α)), scanToks f st ts = .inr r →
+      ∃ pre tk st', ts = pre ++ tk :: r ∧ (f st' tk r).2 = true ∧
+        (∀ pre1 tk1 suf, pre = pre1 ++ tk1 :: suf → ∃ st1, (f st1 tk1 (suf ++ tk :: r)).2 = false) := by
+  intro ts
+  induction ts with
+  | nil => intro st r h; simp [scanToks] at h
+  | cons t ts ih =>
+    intro st r h
+    simp only [scanToks] at h
+    by_cases hstop : (f st t ts).2 = true
+    · simp only [hstop, if_true] at h
+      have : ts = r := by simpa using h
+      subst this
+      exact ⟨[], t, st, rfl, hstop, by intro pre1 tk1 suf h; simp at h⟩
+    · have hstop' : (f st t ts).2 = false := by simpa using hstop
+      simp only [hstop'] at h
+      obtain ⟨pre, tk, st', hts, hf, hno⟩ := ih (f st t ts).1 r (by simpa using h)
+      refine ⟨t :: pre, tk, st', by simp [hts], hf, ?_⟩
+      intro pre1 tk1 suf hp
+      cases pre1 with
+      | nil =>
+        simp only [List.nil_append, List.cons.injEq] at hp
+        obtain ⟨h1, h2⟩ := hp
+        subst h1; subst h2
+        exact ⟨st, by rw [← hts]; exact hstop'⟩
+      | cons p ps =>
+        simp only [List.cons_append, List.cons.injEq] at hp
+        exact hno ps tk1 suf hp.2
+
+/-- **READ takes the DATA items in program order.** The position of the next item (`dataPos`, what `cmdread` uses):
+directly behind a comma that follows the item read last (the next item of the same DATA statement, left to right);
+otherwise the first `DATA` token followed by an item, searching forward from the current position through the
+rest of that line and then the following lines in line-number order; none left is the error "Out of Data" -/
+theorem read_data_order {α : Type} [BNum α] (s : St α) (i : Nat) (hdl : s.dataline = some i) :
+    (headIs s.datatok .comma = true → dataPos s = .ok (some i, s.datatok.drop 1)) ∧
+    (headIs s.datatok .comma = false →
+      (∀ p, dataPos s = .ok p ↔ scanStream dataStep () (streamFrom s (some i) s.datatok) = some p) ∧
+      (scanStream dataStep () (streamFrom s (some i) s.datatok) = none → dataPos s = .error .outOfData)) ∧
+    (∀ r, scanToks dataStep () s.datatok = .inr r →
+      ∃ pre tk, s.datatok = pre ++ tk :: r ∧ tk.isK .data = true ∧ isEos r = false ∧
+        dataPos s = (if headIs s.datatok .comma then .ok (some i, s.datatok.drop 1) else .ok (some i, r))) := by
+  refine ⟨?_, ?_, ?_⟩
+  · intro h; simp [dataPos, hdl, h]
+  · intro h
+    constructor
+    · intro p
+      simp only [dataPos, hdl, h]
+      cases scanStream dataStep () (streamFrom s (some i) s.datatok) with
+      | none => simp
+      | some q => simp
+    · intro hn; simp [dataPos, hdl, h, hn]
+  · intro r hr
+    obtain ⟨pre, tk, st', hts, hf, _⟩ := scanToks_first dataStep s.datatok () r hr
+    have hd : tk.isK .data = true ∧ isEos r = false := by
+      simpa [dataStep] using hf
+    refine ⟨pre, tk, hts, hd.1, hd.2, ?_⟩
+    by_cases hc : headIs s.datatok .comma = true
+    · simp [dataPos, hdl, hc]
+    · have hc' : headIs s.datatok .comma = false := by simpa using hc
+      simp [dataPos, hdl, hc', streamFrom, scanStream, hr]
+
+/-! ## FOR / NEXT in exact arithmetic -/
+
+section ForLoop
+variable (F : RatFns)
+
+/-- **FOR iterations, positive step.** In exact arithmetic a loop `FOR v = a TO b STEP s` with `s > 0` whose body
+leaves `v` alone runs exactly `n` times, where `n` is the unique number with `a + (n-1)·s ≤ b < a + n·s`
+(i.e. `n = ⌊(b − a)/s⌋ + 1`) or `0` when `a > b`; the body sees `a, a+s, …, a+(n−1)s` and the variable is left
+at `a + n·s`, the first value past the limit (`a` itself when the loop is skipped) -/
+theorem for_iterations_pos (a b s : Rat) (hs : 0 < s) :
+    letI := ratNum F
+    (b < a → ∀ fuel, forLoop a b s fuel = ([], a)) ∧
+    (∀ n : Nat, 1 ≤ n → a + ((n : Rat) - 1) * s ≤ b → b < a + (n : Rat) * s → ∀ fuel, n ≤ fuel →
+      forLoop a b s fuel = ((List.range n).map (fun i => a + (i : Rat) * s), a + (n : Rat) * s)) := by
+  letI := ratNum F
+  have hskip : ∀ v : Rat, forSkips v b s = decide (b < v) := by
+    intro v
+    simp only [forSkips, BNum.ge, BNum.gt, BNum.le, BNum.lt, BNum.zero, BNum.ofInt]
+    have h1 : decide ((0 : Rat) ≤ s) = true := by simpa using le_of_lt hs
+    have h2 : decide (s ≤ (0 : Rat)) = false := by simpa using hs
+    simp [h1, h2]
+  have hcont : ∀ v : Rat, nextContinues v b s = decide (v ≤ b) := by
+    intro v
+    simp only [nextContinues, BNum.ge, BNum.gt, BNum.le, BNum.lt, BNum.zero, BNum.ofInt]
+    have h1 : decide (s < (0 : Rat)) = false := by simpa using le_of_lt hs
+    have h2 : decide ((0 : Rat) < s) = true := by simpa using hs
+    simp [h1, h2]
+  constructor
+  · intro hab fuel
+    simp [forLoop, hskip, hab]
+  · have body : ∀ n : Nat, 1 ≤ n → ∀ (v : Rat) fuel, n ≤ fuel → v + ((n : Rat) - 1) * s ≤ b → b < v + (n : Rat) * s →
+        forBody b s fuel v = ((List.range n).map (fun i => v + (i : Rat) * s), v + (n : Rat) * s) := by
+      intro n
+      induction n with
+      | zero => intro h; omega
+      | succ n ih =>
+        intro _ v fuel hfuel hle hlt
+        obtain ⟨f, rfl⟩ : ∃ f, fuel = f + 1 := ⟨fuel - 1, by omega⟩
+        simp only [forBody, BNum.add, hcont]
+        by_cases hn : n = 0
+        · subst hn
+          have : ¬ (v + s ≤ b) := by
+            have : b < v + s := by simpa using hlt
+            exact not_le.mpr this
+          simp [this]
+        · have hn1 : 1 ≤ n := Nat.one_le_iff_ne_zero.mpr hn
+          have hge : v + s ≤ b := by
+            have h1 : (1 : Rat) ≤ (n : Rat) := by exact_mod_cast hn1
+            have : v + s ≤ v + ((n : Rat) + 1 - 1) * s := by nlinarith
+            push_cast at hle
+            linarith
+          have := ih hn1 (v + s) f (by omega) (by push_cast at hle ⊢; linarith) (by push_cast at hlt ⊢; linarith)
+          simp only [hge, decide_true, if_true, this]
+          refine Prod.ext ?_ ?_
+          · simp only [List.range_succ_eq_map, List.map_cons, List.map_map]
+            congr 1
+            · simp
+            · apply List.map_congr_left
+              intro i _
+              simp only [Function.comp, Nat.cast_succ]
+              ring
+          · push_cast; ring
+    intro n hn hle hlt fuel hfuel
+    have hna : ¬ (b < a) := by
+      have h1 : (1 : Rat) ≤ (n : Rat) := by exact_mod_cast hn
+      have : a ≤ a + ((n : Rat) - 1) * s := by nlinarith
+      exact not_lt.mpr (le_trans this hle)
+    simp only [forLoop, hskip, hna, decide_false]
+    exact body n hn a fuel hfuel hle hlt
+
+/-- **FOR iterations, negative step** (`s < 0`, counting down to `b`): mirror image -/
+theorem for_iterations_neg (a b s : Rat) (hs : s < 0) :
+    letI := ratNum F
+    (a < b → ∀ fuel, forLoop a b s fuel = ([], a)) ∧
+    (∀ n : Nat, 1 ≤ n → b ≤ a + ((n : Rat) - 1) * s → a + (n : Rat) * s < b → ∀ fuel, n ≤ fuel →
+      forLoop a b s fuel = ((List.range n).map (fun i => a + (i : Rat) * s), a + (n : Rat) * s)) := by
+  letI := ratNum F
+  have hskip : ∀ v : Rat, forSkips v b s = decide (v < b) := by
+    intro v
+    simp only [forSkips, BNum.ge, BNum.gt, BNum.le, BNum.lt, BNum.zero, BNum.ofInt]
+    have h1 : decide ((0 : Rat) ≤ s) = false := by simpa using hs
+    have h2 : decide (s ≤ (0 : Rat)) = true := by simpa using le_of_lt hs
+    simp [h1, h2]
+  have hcont : ∀ v : Rat, nextContinues v b s = decide (b ≤ v) := by
+    intro v
+    simp only [nextContinues, BNum.ge, BNum.gt, BNum.le, BNum.lt, BNum.zero, BNum.ofInt]
+    have h1 : decide (s < (0 : Rat)) = true := by simpa using hs
+    have h2 : decide ((0 : Rat) < s) = false := by simpa using le_of_lt hs
+    simp [h1, h2]
+  constructor
+  · intro hab fuel
+    simp [forLoop, hskip, hab]
+  · have body : ∀ n : Nat, 1 ≤ n → ∀ (v : Rat) fuel, n ≤ fuel → b ≤ v + ((n : Rat) - 1) * s → v + (n : Rat) * s < b →
+        forBody b s fuel v = ((List.range n).map (fun i => v + (i : Rat) * s), v + (n : Rat) * s) := by
+      intro n
+      induction n with
+      | zero => intro h; omega
+      | succ n ih =>
+        intro _ v fuel hfuel hle hlt
+        obtain ⟨f, rfl⟩ : ∃ f, fuel = f + 1 := ⟨fuel - 1, by omega⟩
+        simp only [forBody, BNum.add, hcont]
+        by_cases hn : n = 0
+        · subst hn
+          have : ¬ (b ≤ v + s) := by
+            have : v + s < b := by simpa using hlt
+            exact not_le.mpr this
+          simp [this]
+        · have hn1 : 1 ≤ n := Nat.one_le_iff_ne_zero.mpr hn
+          have hge : b ≤ v + s := by
+            have h1 : (1 : Rat) ≤ (n : Rat) := by exact_mod_cast hn1
+            have : v + ((n : Rat) + 1 - 1) * s ≤ v + s := by nlinarith
+            push_cast at hle
+            linarith
+          have := ih hn1 (v + s) f (by omega) (by push_cast at hle ⊢; linarith) (by push_cast at hlt ⊢; linarith)
+          simp only [hge, decide_true, if_true, this]
+          refine Prod.ext ?_ ?_
+          · simp only [List.range_succ_eq_map, List.map_cons, List.map_map]
+            congr 1
+            · simp
+            · apply List.map_congr_left
+              intro i _
+              simp only [Function.comp, Nat.cast_succ]
+              ring
+          · push_cast; ring
+    intro n hn hle hlt fuel hfuel
+    have hna : ¬ (a < b) := by
+      have h1 : (1 : Rat) ≤ (n : Rat) := by exact_mod_cast hn
+      have : a + ((n : Rat) - 1) * s ≤ a := by nlinarith
+      exact not_lt.mpr (le_trans hle this)
+    simp only [forLoop, hskip, hna, decide_false]
+    exact body n hn a fuel hfuel hle hlt
+
+/-- non-vacuity: `FOR i = 1 TO 2.2 STEP 0.5` runs three times (1, 1.5, 2) and leaves `i = 2.5` -/
+example : letI := ratNum F
+    forLoop (1 : Rat) (22 / 10) (1 / 2) 10 = ([1, 3 / 2, 2], 5 / 2) := by
+  letI := ratNum F
+  have := (for_iterations_pos F 1 (22 / 10) (1 / 2) (by norm_num)).2 3 (by norm_num) (by norm_num) (by norm_num) 10 (by norm_num)
+  rw [this]
+  norm_num [List.range_succ]
+
+end ForLoop
+
+/-- the NEXT statement of the machine decides with `nextContinues` on the incremented variable: for a FOR frame on
+top of the stack whose variable is `l.var` the variable becomes `v + step`; the machine goes back to the frame's
+home position when `nextContinues` holds and otherwise drops the frame and goes on behind NEXT -/
+theorem next_uses_nextContinues {α : Type} [BNum α] (hook : Hook α) (s : St α) (line : Option Nat)
+    (l : Loop α) (rest : List (Loop α)) (hk : l.kind = .for_) (hs : s.loops = l :: rest) :
+    let nv := BNum.add (s.getVar l.var).numVal l.step
+    let s2 := s.setVar l.var ((s.getVar l.var).setNum nv)
+    execStmt hook s line (.k .next) [] =
+      (if nextContinues nv l.max l.step then
+        .ok { st := { s2 with loops := l :: rest }, line := l.homeline, t := l.hometok }
+       else .ok { st := { s2 with loops := rest }, line := line, t := [] }) := by
+  simp [execStmt, isEos, hs, popTo, hk]
 
 end PhreeqcVerif.C17
